@@ -99,7 +99,7 @@ def programs(kind, tier, seed):
         except T.ParseError: continue
         if set(acs) == set(names) and all(T.atoms(f) <= set(names) for f in acs.values()) and (big or len(names) <= 6): progs.append((txt, names, acs, 'repo'))
     if tier == 'quick': progs = progs[:6]
-    k = (10 if tier == 'quick' else 120) if big else (8 if tier == 'quick' else 60)
+    k = (40 if tier == "quick" else 300) if big else (24 if tier == "quick" else 150)
     for i in range(k):
         if big: n = rng.choice([4, 8, 15, 25, 40, 60])
         elif kind == 'complete': n = rng.choice([2, 3, 4, 5] if tier == 'quick' else [2, 3, 4, 5, 6])
